@@ -1,0 +1,59 @@
+//! Verification hooks for property C50 (compiled only with `--cfg libp2p_verif`).
+//!
+//! Thin `pub` wrappers that only *call* the private server-side functions of
+//! `as_server.rs`, plus accessors for the private state those functions read.
+
+use std::time::Duration;
+
+use libp2p_core::Multiaddr;
+use libp2p_identity::PeerId;
+use web_time::Instant;
+
+use super::{super::Behaviour, AsServer, DialRequest, ResponseError};
+
+/// `AsServer::filter_valid_addrs`.
+pub fn filter_valid_addrs(
+    peer: PeerId,
+    demanded: Vec<Multiaddr>,
+    observed_remote_at: &Multiaddr,
+) -> Vec<Multiaddr> {
+    AsServer::filter_valid_addrs(peer, demanded, observed_remote_at)
+}
+
+/// The observed addresses stored for the connections of `peer`, in the iteration order
+/// that `resolve_inbound_request` sees (`None` = peer not in `connected`).
+pub fn observed_of(b: &Behaviour, peer: &PeerId) -> Option<Vec<Option<Multiaddr>>> {
+    b.connected
+        .get(peer)
+        .map(|conns| conns.values().cloned().collect())
+}
+
+/// Loads `throttled_clients` with entries that are `age` old (oldest first is the caller's
+/// business) and calls `AsServer::resolve_inbound_request` on the server view of `b`.
+/// Returns its result and the peers left in `throttled_clients` afterwards.
+#[allow(clippy::type_complexity)]
+pub fn resolve_inbound_request(
+    b: &mut Behaviour,
+    throttled: &[(PeerId, Duration)],
+    sender: PeerId,
+    request_peer: PeerId,
+    addresses: Vec<Multiaddr>,
+) -> (
+    Result<Vec<Multiaddr>, (String, ResponseError)>,
+    Vec<PeerId>,
+) {
+    let now = Instant::now();
+    b.throttled_clients = throttled.iter().map(|(p, age)| (*p, now - *age)).collect();
+    let request = DialRequest {
+        peer_id: request_peer,
+        addresses,
+    };
+    let result = b.as_server().resolve_inbound_request(sender, request);
+    let left = b.throttled_clients.iter().map(|(p, _)| *p).collect();
+    (result, left)
+}
+
+/// Number of entries in `ongoing_inbound` / `throttled_clients` (read-only).
+pub fn server_state_sizes(b: &Behaviour) -> (usize, usize) {
+    (b.ongoing_inbound.len(), b.throttled_clients.len())
+}
